@@ -630,37 +630,61 @@ package redis
 // ---- encoder (C10 C11 C01) ---------------------------------------------------------------------------
 
 //@ func (*encoder).encode
-//@   prop C10 C11
-//@   modifies nothing
+//@   prop C10 C11 C01
+//@   modifies wrote, wlen
 //@   requires v != nil
+//@   ensures @a-simple-string-or-error-is-its-type-byte-its-text-and-crlf result == nil && (v.Type == 43 || v.Type == 45) ==> wlen[e.bw] == old(wlen[e.bw]) + 1 + len(v.Text) + 2 && wrote[e.bw][old(wlen[e.bw])] == v.Type && wrote[e.bw][old(wlen[e.bw]) + 1 + len(v.Text)] == 13 && wrote[e.bw][old(wlen[e.bw]) + 2 + len(v.Text)] == 10 && forall k int :: 0 <= k && k < len(v.Text) ==> wrote[e.bw][old(wlen[e.bw]) + 1 + k] == v.Text[k]
+//@   ensures @every-value-starts-with-its-type-byte result == nil ==> wlen[e.bw] >= old(wlen[e.bw]) + 1 && wrote[e.bw][old(wlen[e.bw])] == v.Type
+//@   ensures @a-bulk-string-ends-with-its-payload-and-crlf result == nil && v.Type == 36 && !isnil(v.Text) ==> wrote[e.bw][wlen[e.bw] - 2] == 13 && wrote[e.bw][wlen[e.bw] - 1] == 10 && forall k int :: 0 <= k && k < len(v.Text) ==> wrote[e.bw][wlen[e.bw] - 2 - len(v.Text) + k] == v.Text[k]
+//@   ensures @append-only wlen[e.bw] >= old(wlen[e.bw]) && forall k int :: k < old(wlen[e.bw]) ==> wrote[e.bw][k] == old(wrote[e.bw][k])
+//@   ensures @other-writers-untouched forall x loc :: x != e.bw ==> wlen[x] == old(wlen[x]) && wrote[x] == old(wrote[x])
 
 //@ func (*encoder).encodeArray
-//@   prop C10 C11
-//@   modifies nothing
+//@   prop C10 C11 C01
+//@   modifies wrote, wlen
+//@   ensures @append-only wlen[e.bw] >= old(wlen[e.bw]) && forall k int :: k < old(wlen[e.bw]) ==> wrote[e.bw][k] == old(wrote[e.bw][k])
+//@   ensures @other-writers-untouched forall x loc :: x != e.bw ==> wlen[x] == old(wlen[x]) && wrote[x] == old(wrote[x])
+//@   loop 0 invariant e.bw == old(e.bw) && wlen[e.bw] >= old(wlen[e.bw]) && (forall k int :: k < old(wlen[e.bw]) ==> wrote[e.bw][k] == old(wrote[e.bw][k])) && forall x loc :: x != e.bw ==> wlen[x] == old(wlen[x]) && wrote[x] == old(wrote[x])
 
 //@ func (*encoder).encodeBulkBytes
-//@   prop C10 C11
-//@   modifies nothing
+//@   prop C10 C11 C01
+//@   modifies wrote, wlen
+//@   ensures @header-line-then-payload-then-crlf result == nil && !isnil(b) ==> wlen[e.bw] >= old(wlen[e.bw]) + 2 + len(b) + 2 && wrote[e.bw][wlen[e.bw] - 2] == 13 && wrote[e.bw][wlen[e.bw] - 1] == 10 && wrote[e.bw][wlen[e.bw] - len(b) - 4] == 13 && wrote[e.bw][wlen[e.bw] - len(b) - 3] == 10 && forall k int :: 0 <= k && k < len(b) ==> wrote[e.bw][wlen[e.bw] - 2 - len(b) + k] == b[k]
+//@   ensures @append-only wlen[e.bw] >= old(wlen[e.bw]) && forall k int :: k < old(wlen[e.bw]) ==> wrote[e.bw][k] == old(wrote[e.bw][k])
+//@   ensures @other-writers-untouched forall x loc :: x != e.bw ==> wlen[x] == old(wlen[x]) && wrote[x] == old(wrote[x])
 
 //@ func (*encoder).encodeInt
-//@   prop C10 C11
-//@   modifies nothing
+//@   prop C10 C11 C01
+//@   modifies wrote, wlen
+//@   ensures @a-line-appended result == nil ==> wlen[e.bw] >= old(wlen[e.bw]) + 2 && wrote[e.bw][wlen[e.bw] - 2] == 13 && wrote[e.bw][wlen[e.bw] - 1] == 10
+//@   ensures @append-only wlen[e.bw] >= old(wlen[e.bw]) && forall k int :: k < old(wlen[e.bw]) ==> wrote[e.bw][k] == old(wrote[e.bw][k])
+//@   ensures @other-writers-untouched forall x loc :: x != e.bw ==> wlen[x] == old(wlen[x]) && wrote[x] == old(wrote[x])
 
 //@ func itoa
 //@   prop C10 C11
 //@   modifies nothing
 
 //@ func (*encoder).encodeTextBytes
-//@   prop C10 C11
-//@   modifies nothing
+//@   prop C10 C11 C01
+//@   modifies wrote, wlen
+//@   ensures @text-then-crlf-appended result == nil ==> wlen[e.bw] == old(wlen[e.bw]) + len(b) + 2 && wrote[e.bw][old(wlen[e.bw]) + len(b)] == 13 && wrote[e.bw][old(wlen[e.bw]) + len(b) + 1] == 10 && forall k int :: 0 <= k && k < len(b) ==> wrote[e.bw][old(wlen[e.bw]) + k] == b[k]
+//@   ensures @append-only wlen[e.bw] >= old(wlen[e.bw]) && forall k int :: k < old(wlen[e.bw]) ==> wrote[e.bw][k] == old(wrote[e.bw][k])
+//@   ensures @other-writers-untouched forall x loc :: x != e.bw ==> wlen[x] == old(wlen[x]) && wrote[x] == old(wrote[x])
 
 //@ func (*encoder).encodeTextString
-//@   prop C10 C11
-//@   modifies nothing
+//@   prop C10 C11 C01
+//@   modifies wrote, wlen
+//@   ensures @text-then-crlf-appended result == nil ==> wlen[e.bw] == old(wlen[e.bw]) + len(s) + 2 && wrote[e.bw][old(wlen[e.bw]) + len(s)] == 13 && wrote[e.bw][old(wlen[e.bw]) + len(s) + 1] == 10 && forall k int :: 0 <= k && k < len(s) ==> wrote[e.bw][old(wlen[e.bw]) + k] == s[k]
+//@   ensures @append-only wlen[e.bw] >= old(wlen[e.bw]) && forall k int :: k < old(wlen[e.bw]) ==> wrote[e.bw][k] == old(wrote[e.bw][k])
+//@   ensures @other-writers-untouched forall x loc :: x != e.bw ==> wlen[x] == old(wlen[x]) && wrote[x] == old(wrote[x])
 
 //@ func (*encoder).writeCRLF
-//@   prop C10 C11
-//@   modifies nothing
+//@   prop C10 C11 C01
+//@   modifies wrote, wlen
+//@   assume len(CRLF) == 2 && CRLF[0] == 13 && CRLF[1] == 10
+//@   ensures @crlf-appended err == nil ==> wlen[e.bw] == old(wlen[e.bw]) + 2 && wrote[e.bw][old(wlen[e.bw])] == 13 && wrote[e.bw][old(wlen[e.bw]) + 1] == 10
+//@   ensures @append-only wlen[e.bw] >= old(wlen[e.bw]) && forall k int :: k < old(wlen[e.bw]) ==> wrote[e.bw][k] == old(wrote[e.bw][k])
+//@   ensures @other-writers-untouched forall x loc :: x != e.bw ==> wlen[x] == old(wlen[x]) && wrote[x] == old(wrote[x])
 
 // ---- C10: the precomputed itoa table (package init) ---------------------------------------------
 
@@ -827,7 +851,10 @@ package redis
 //@ func (*encoder).Encode
 //@   prop C10 C01 C02
 //@   requires v != nil
-//@   modifies e.err, encn, enclast
+//@   modifies e.err, encn, enclast, wrote, wlen
+//@   ensures @a-simple-string-or-error-goes-out-as-one-frame result == nil && (v.Type == 43 || v.Type == 45) ==> wlen[e.bw] == old(wlen[e.bw]) + 1 + len(v.Text) + 2 && wrote[e.bw][old(wlen[e.bw])] == v.Type && wrote[e.bw][old(wlen[e.bw]) + 1 + len(v.Text)] == 13 && wrote[e.bw][old(wlen[e.bw]) + 2 + len(v.Text)] == 10 && forall k int :: 0 <= k && k < len(v.Text) ==> wrote[e.bw][old(wlen[e.bw]) + 1 + k] == v.Text[k]
+//@   ensures @append-only wlen[e.bw] >= old(wlen[e.bw]) && forall k int :: k < old(wlen[e.bw]) ==> wrote[e.bw][k] == old(wrote[e.bw][k])
+//@   ensures @other-writers-untouched forall x loc :: x != e.bw ==> wlen[x] == old(wlen[x]) && wrote[x] == old(wrote[x])
 //@   ghostdef (forall x loc :: encn[x] == old(encn[x]) + ite(x == e, 1, 0)) && (forall x loc :: enclast[x] == ite(x == e, v, old(enclast[x])))
 
 //@ func (*encoder).Flush
